@@ -248,7 +248,7 @@ impl Gen
         let very_wide = wide && !self.big_files && self.rng.chance(1, 10);
         let n_targets = if copyish { 1 } else if very_wide { self.rng.range(20, 70) } else if wide { self.rng.range(4, 9) } else { match self.rng.below(10) { 0..=5 => 1, 6..=8 => 2, _ => 3 } };
         let avail = self.available_sources(pos);
-        let n_sources = if copyish { 1 } else if self.crowd { std::cmp::min(self.leaves.len(), self.rng.range(1, 2)) } else { std::cmp::min(avail.len(), if wide { self.rng.range(4, 10) } else { self.rng.range(1, 4) }) };
+        let n_sources = if copyish { 1 } else if self.crowd { std::cmp::min(self.leaves.len(), self.rng.range(1, 4)) } else { std::cmp::min(avail.len(), if wide { self.rng.range(4, 10) } else { self.rng.range(1, 4) }) };
         let mut sources : Vec<String> = vec![];
         let earlier_targets : Vec<String> = self.rules[..pos].iter().flat_map(|r| r.targets.clone()).collect();
         while sources.len() < n_sources
@@ -307,7 +307,7 @@ impl Gen
 
     fn build_graph(&mut self)
     {
-        let n_leaves = if self.crowd { self.rng.range(3, 12) } else { self.rng.range(1, 4) };
+        let n_leaves = if self.crowd { *self.rng.pick(&[3usize, 8, 12, 64, 127, 128, 129, 130, 200, 300]) } else { self.rng.range(1, 4) };
         for _ in 0..n_leaves
         {
             self.new_leaf();
